@@ -627,6 +627,392 @@ fn run_open_and_far(r: &mut Report) {
     }
 }
 
+// ============================================================================================== WAVE 5
+// Parameter-space audit (notes/w5_audit_C07.md): references that are tiny / large / far from the origin, slanted and
+// asymmetric shapes (tetrahedral wedge, scalene triangle, open hook), measured sets with deviations on BOTH sides,
+// sample counts around 32 / 64 / 1000 / 4096 (not multiples of a batch size), duplicates that are not neighbours,
+// sample sets with fewer points than parameters and starting guesses far outside the basin (honesty clauses only),
+// near-identity displacements with a long lever arm, displacements towards the edge of the basin.
+// Tolerances follow the reference: a length tolerance is RTOL * (part scale s + value) + 2e-14 * (largest coordinate).
+
+struct Ref3 { name: String, mesh: Mesh, tris: Vec<[Point3; 3]>, s: f64, omax: f64, centre: Point3 }
+fn ref3(name: &str, verts: &[Point3], faces: &[[u32; 3]], s: f64, o: (f64, f64, f64)) -> Ref3 {
+    let ov = Vector3::new(o.0, o.1, o.2);
+    let v: Vec<Point3> = verts.iter().map(|p| Point3::from(p.coords * s + ov)).collect();
+    let tris: Vec<[Point3; 3]> = faces.iter().map(|f| [v[f[0] as usize], v[f[1] as usize], v[f[2] as usize]]).collect();
+    let omax = v.iter().map(|p| p.coords.amax()).fold(0.0, f64::max);
+    let mut c = Vector3::zeros();
+    for p in v.iter() { c += p.coords; }
+    let centre = Point3::from(c / v.len() as f64);
+    Ref3 { name: format!("{} x {:?} + {:?}", name, s, o), mesh: Mesh::new(v, faces.to_vec(), false), tris, s, omax, centre }
+}
+fn box_geom5() -> (Vec<Point3>, Vec<[u32; 3]>) { let m = Mesh::create_box(4.0, 3.0, 2.0, false); (m.vertices().to_vec(), m.faces().to_vec()) }
+/// right-angled tetrahedron with legs 6 / 4 / 3: three mutually orthogonal faces and one slanted face, all edges different
+fn wedge_geom5() -> (Vec<Point3>, Vec<[u32; 3]>) {
+    (vec![Point3::new(0.0, 0.0, 0.0), Point3::new(6.0, 0.0, 0.0), Point3::new(0.0, 4.0, 0.0), Point3::new(0.0, 0.0, 3.0)], vec![[0, 2, 1], [0, 1, 3], [0, 3, 2], [1, 2, 3]])
+}
+/// n points spread over the triangles of the reference (point k on triangle k % ntri, barycentric coordinates from a fixed
+/// integer sequence, at least 1/16 (barycentric) from every edge); `dev`: lifted off the face along its normal by a signed
+/// deviation +-(0.02 .. 0.08) * s varying from point to point (every third point on the INNER side)
+fn spread3(rf: &Ref3, n: usize, dev: bool) -> Vec<Point3> {
+    let nt = rf.tris.len();
+    (0..n).map(|k| {
+        let t = &rf.tris[k % nt];
+        let i = k / nt;
+        let u = 0.0625 + 0.40625 * (((i * 37 + 11) % 97) as f64 / 97.0);
+        let v = 0.0625 + 0.40625 * (((i * 53 + 29) % 89) as f64 / 89.0);
+        let p = t[0] + (t[1] - t[0]) * u + (t[2] - t[0]) * v;
+        if !dev { return p; }
+        let nrm = (t[1] - t[0]).cross(&(t[2] - t[0])).normalize();
+        let sg = if k % 3 == 1 { -1.0 } else { 1.0 };
+        p + nrm * (sg * (0.02 + 0.01 * ((k * 3) % 7) as f64) * rf.s)
+    }).collect()
+}
+fn about3(c: &Point3, d: &Iso3) -> Iso3 { Iso3::translation(c.x, c.y, c.z) * d * Iso3::translation(-c.x, -c.y, -c.z) }
+fn near_s(a: f64, b: f64, s: f64, omax: f64) -> bool { (a - b).abs() <= RTOL * (s + a.abs().max(b.abs())) + 2.0e-14 * omax }
+fn mesh_residuals_s(t: &[[Point3; 3]], m: &Point3, eps: f64) -> (f64, Vec<f64>) {
+    let cp: Vec<Point3> = t.iter().map(|x| tri_closest(&x[0], &x[1], &x[2], m)).collect();
+    let d: Vec<f64> = cp.iter().map(|c| (m - c).norm()).collect();
+    let dmin = d.iter().cloned().fold(f64::INFINITY, f64::min);
+    let mut planes = vec![];
+    for (k, x) in t.iter().enumerate() {
+        if d[k] <= dmin + eps { let n = (x[1] - x[0]).cross(&(x[2] - x[0])).normalize(); planes.push(n.dot(&(m - cp[k])).abs()); }
+    }
+    (dmin, planes)
+}
+struct Out3 { ok: bool, err: f64, tf: Iso3, res: Vec<f64> }
+/// all clauses of one alignment against a scaled / moved reference.  `base`: the sample points before the displacement
+/// `total` (pts = total * base); `recover`: Some(tol) demands  |T * total * b - b| <= tol * s for every base point b and
+/// rotation(T * total) == identity within tol
+fn eval3s(r: &mut Report, rf: &Ref3, base: &[Point3], total: &Iso3, guess: &Iso3, to_point: bool, recover: Option<f64>, d: &dyn Fn() -> String) -> Out3 {
+    r.case();
+    let pts: Vec<Point3> = base.iter().map(|p| total * p).collect();
+    let mode = if to_point { DistMode::ToPoint } else { DistMode::ToPlane };
+    let eps = RTOL * rf.s + 2.0e-14 * rf.omax;
+    let al = match points_to_mesh(&pts, &rf.mesh, guess, mode) {
+        Ok(a) => a,
+        Err(_) => { if recover.is_some() { r.check(false, "3D: alignment of a displacement inside the basin succeeds", d); } return Out3 { ok: false, err: f64::NAN, tf: Iso3::identity(), res: vec![] }; }
+    };
+    let tf = *al.transform();
+    let back = tf * total;
+    let mut e: f64 = 0.0;
+    for b in base.iter() { e = e.max((back * b - b).norm() / rf.s); }
+    let rot = (back.rotation.to_rotation_matrix().matrix() - parry3d_f64::na::Matrix3::identity()).amax();
+    let err = e.max(rot);
+    if let Some(tol) = recover {
+        r.check(err <= tol, "3D (scaled / moved / slanted references): the returned transform composed with the displacement moves no sample point by more than the stated tolerance x part scale and has the identity rotation", || format!("{}: max |T*D*p - p| / scale = {:?}, max |entry of rotation - I| = {:?}, tolerance {:?}", d(), e, rot, tol));
+    }
+    r.check(al.residuals().len() == pts.len(), "3D: one residual per input point", d);
+    if al.residuals().len() != pts.len() { return Out3 { ok: true, err, tf, res: al.residuals().to_vec() }; }
+    let finite = al.residuals().iter().all(|x| x.is_finite()) && tf.to_homogeneous().iter().all(|x| x.is_finite());
+    r.check(finite, "3D: a successful alignment reports a finite transform and finite residuals", d);
+    if !finite { return Out3 { ok: true, err, tf, res: al.residuals().to_vec() }; }
+    let mut ok = true;
+    let mut worst = (0usize, 0.0, 0.0);
+    let mut start = 0.0;
+    for (i, p) in pts.iter().enumerate() {
+        let (dist, planes) = mesh_residuals_s(&rf.tris, &(tf * p), eps);
+        let got = al.residuals()[i];
+        let fine = if to_point { near_s(got, dist, rf.s, rf.omax) } else { planes.iter().any(|x| near_s(got, *x, rf.s, rf.omax)) };
+        if !fine && ok { ok = false; worst = (i, got, if to_point { dist } else { planes[0] }); }
+        let (d0, pl0) = mesh_residuals_s(&rf.tris, &(guess * p), eps);
+        let x = if to_point { d0 } else { pl0.iter().cloned().fold(0.0, f64::max) };
+        start += x * x;
+    }
+    r.check(ok, "3D: residual i is the mode-specific distance of (returned transform * input point i) to the mesh", || format!("{}: residual[{}] = {:?}, recomputed {:?}", d(), worst.0, worst.1, worst.2));
+    let end: f64 = al.residuals().iter().map(|x| x * x).sum();
+    let slack = 1e-12 * (rf.s * rf.s + start) + 1e-13 * rf.omax * (rf.s + start.sqrt());
+    r.check(end <= start + slack, "3D: the residual sum of squares is not larger than at the starting guess", || format!("{}: start {:?} end {:?}", d(), start, end));
+    Out3 { ok: true, err, tf, res: al.residuals().to_vec() }
+}
+
+struct Ref2 { name: String, curve: Curve2, v: Vec<Point2>, s: f64, omax: f64, centre: Point2 }
+fn ref2(name: &str, verts: &[(f64, f64)], closed: bool, s: f64, o: (f64, f64)) -> Ref2 {
+    let pts: Vec<Point2> = verts.iter().map(|(x, y)| Point2::new(x * s + o.0, y * s + o.1)).collect();
+    let curve = Curve2::from_points(&pts, 1e-8 * s, closed).unwrap();
+    let v = curve.points().to_vec();
+    let omax = v.iter().map(|p| p.coords.amax()).fold(0.0, f64::max);
+    let mut c = Vector2::zeros();
+    for p in pts.iter() { c += p.coords; }
+    let centre = Point2::from(c / pts.len() as f64);
+    Ref2 { name: format!("{} {} x {:?} + {:?}", if closed { "closed" } else { "OPEN" }, name, s, o), curve, v, s, omax, centre }
+}
+/// n points spread over the edges (point k on edge k % nedges, at a fraction 1/8 .. 7/8 of the edge from a fixed integer
+/// sequence); `dev`: offset along the edge normal by a signed deviation +-(0.005 .. 0.03) * s (both sides)
+fn spread2(rf: &Ref2, n: usize, dev: bool) -> Vec<Point2> {
+    let ne = rf.v.len() - 1;
+    (0..n).map(|k| {
+        let (a, b) = (rf.v[k % ne], rf.v[k % ne + 1]);
+        let i = k / ne;
+        let f = 0.125 + 0.75 * (((i * 37 + 11) % 97) as f64 / 97.0);
+        let p = a + (b - a) * f;
+        if !dev { return p; }
+        let e = (b - a).normalize();
+        let sg = if k % 3 == 1 { -1.0 } else { 1.0 };
+        p + Vector2::new(e.y, -e.x) * (sg * (0.005 + 0.005 * ((k * 3) % 6) as f64) * rf.s)
+    }).collect()
+}
+fn about2(c: &Point2, d: &Iso2) -> Iso2 { Iso2::translation(c.x, c.y) * d * Iso2::translation(-c.x, -c.y) }
+fn curve_residuals_s(v: &[Point2], m: &Point2, eps: f64) -> Vec<f64> {
+    let mut cps = vec![];
+    for i in 0..v.len() - 1 {
+        let ab = v[i + 1] - v[i];
+        let cp = v[i] + ab * ((m - v[i]).dot(&ab) / ab.norm_squared()).clamp(0.0, 1.0);
+        let e = ab.normalize();
+        cps.push(((m - cp).norm(), Vector2::new(e.y, -e.x).dot(&(m - cp))));
+    }
+    let dmin = cps.iter().map(|x| x.0).fold(f64::INFINITY, f64::min);
+    cps.iter().filter(|x| x.0 <= dmin + eps).map(|x| x.1).collect()
+}
+struct Out2 { ok: bool, err: f64, tf: Iso2, res: Vec<f64> }
+fn eval2s(r: &mut Report, rf: &Ref2, base: &[Point2], total: &Iso2, guess: &Iso2, recover: Option<f64>, d: &dyn Fn() -> String) -> Out2 {
+    r.case();
+    let pts: Vec<Point2> = base.iter().map(|p| total * p).collect();
+    let eps = RTOL * rf.s + 2.0e-14 * rf.omax;
+    let al = match points_to_curve(&pts, &rf.curve, guess) {
+        Ok(a) => a,
+        Err(_) => { if recover.is_some() { r.check(false, "2D: alignment of a displacement inside the basin succeeds", d); } return Out2 { ok: false, err: f64::NAN, tf: Iso2::identity(), res: vec![] }; }
+    };
+    let tf = *al.transform();
+    let back = tf * total;
+    let mut e: f64 = 0.0;
+    for b in base.iter() { e = e.max((back * b - b).norm() / rf.s); }
+    let rot = (back.rotation.to_rotation_matrix().matrix() - parry2d_f64::na::Matrix2::identity()).amax();
+    let err = e.max(rot);
+    if let Some(tol) = recover {
+        r.check(err <= tol, "2D (scaled / moved / slanted / open references): the returned transform composed with the displacement moves no sample point by more than the stated tolerance x part scale and has the identity rotation", || format!("{}: max |T*D*p - p| / scale = {:?}, max |entry of rotation - I| = {:?}, tolerance {:?}", d(), e, rot, tol));
+    }
+    r.check(al.residuals().len() == pts.len(), "2D: one residual per input point", d);
+    if al.residuals().len() != pts.len() { return Out2 { ok: true, err, tf, res: al.residuals().to_vec() }; }
+    let finite = al.residuals().iter().all(|x| x.is_finite()) && tf.to_homogeneous().iter().all(|x| x.is_finite());
+    r.check(finite, "2D: a successful alignment reports a finite transform and finite residuals", d);
+    if !finite { return Out2 { ok: true, err, tf, res: al.residuals().to_vec() }; }
+    let mut ok = true;
+    let mut worst = (0usize, 0.0, 0.0);
+    let mut start = 0.0;
+    for (i, q) in pts.iter().enumerate() {
+        let want = curve_residuals_s(&rf.v, &(tf * q), eps);
+        let got = al.residuals()[i];
+        if !want.iter().any(|x| near_s(got, *x, rf.s, rf.omax)) && ok { ok = false; worst = (i, got, want[0]); }
+        let w = curve_residuals_s(&rf.v, &(guess * q), eps);
+        let x = w.iter().map(|x| x.abs()).fold(0.0, f64::max);
+        start += x * x;
+    }
+    r.check(ok, "2D: residual i is the signed distance of (returned transform * input point i) to the curve along the edge normal", || format!("{}: residual[{}] = {:?}, recomputed {:?}", d(), worst.0, worst.1, worst.2));
+    let end: f64 = al.residuals().iter().map(|x| x * x).sum();
+    let slack = 1e-12 * (rf.s * rf.s + start) + 1e-13 * rf.omax * (rf.s + start.sqrt());
+    r.check(end <= start + slack, "2D: the residual sum of squares is not larger than at the starting guess", || format!("{}: start {:?} end {:?}", d(), start, end));
+    Out2 { ok: true, err, tf, res: al.residuals().to_vec() }
+}
+
+fn explore() -> bool { std::env::var("C07_EXPLORE").is_ok() }
+
+fn run_w5_3d(r: &mut Report) {
+    let (bv, bf) = box_geom5();
+    let (wv, wf) = wedge_geom5();
+    let tiny = 1.0 / 4096.0;
+    let modes = [false, true];
+    let mname = |tp: bool| if tp { "ToPoint" } else { "ToPlane" };
+    // (1) magnitudes of the REFERENCE: tiny (extent 1e-3), large (4e3), far from the origin (3e4, 1e6), slanted faces
+    let refs: Vec<Ref3> = vec![
+        ref3("box 4x3x2", &bv, &bf, tiny, (0.0, 0.0, 0.0)),
+        ref3("box 4x3x2", &bv, &bf, 1024.0, (0.0, 0.0, 0.0)),
+        ref3("box 4x3x2", &bv, &bf, 1.0, (16384.0, -32768.0, 8192.0)),
+        ref3("box 4x3x2", &bv, &bf, 1024.0, (1048576.0, -524288.0, 262144.0)),
+        ref3("wedge (0,0,0),(6,0,0),(0,4,0),(0,0,3)", &wv, &wf, 1.0, (0.0, 0.0, 0.0)),
+        ref3("wedge (0,0,0),(6,0,0),(0,4,0),(0,0,3)", &wv, &wf, tiny, (0.0, 0.0, 0.0)),
+        ref3("wedge (0,0,0),(6,0,0),(0,4,0),(0,0,3)", &wv, &wf, 1.0, (-8192.0, 4096.0, 16384.0)),
+    ];
+    for rf in refs.iter() {
+        let s = rf.s;
+        let smalls: Vec<(&str, Iso3)> = vec![
+            ("identity", Iso3::identity()),
+            ("translation (0.05,-0.03,0.04) x scale", iso3((0.05 * s, -0.03 * s, 0.04 * s), (0.0, 0.0, 0.0))),
+            ("euler (0.01,-0.02,0.015) about the part centre + (0.02,0.01,-0.03) x scale", iso3((0.02 * s, 0.01 * s, -0.03 * s), (0.01, -0.02, 0.015))),
+            ("-3 degrees about (1,1,1) through the part centre", rot3((1.0, 1.0, 1.0), -3.0 * std::f64::consts::PI / 180.0)),
+            ("tiny: (3e-5,-2e-5,1e-5) x scale + euler (4e-6,0,-3e-6) about the part centre", iso3((3.0e-5 * s, -2.0e-5 * s, 1.0e-5 * s), (4.0e-6, 0.0, -3.0e-6))),
+        ];
+        let guesses: Vec<(&str, Iso3)> = vec![
+            ("identity", Iso3::identity()),
+            ("small: euler (0.005,0.005,-0.005) about the part centre + (0.01,-0.01,0.01) x scale", about3(&rf.centre, &iso3((0.01 * s, -0.01 * s, 0.01 * s), (0.005, 0.005, -0.005)))),
+        ];
+        let n = 4 * rf.tris.len() + 3;
+        for (set, dev) in [("A: on the faces", false), ("B: measured, deviations on both sides", true)] {
+            let mut base = spread3(rf, n, dev);
+            if dev { let rep = base[5]; base.push(rep); }
+            for (dn, dd) in smalls.iter() { for (gn, guess) in guesses.iter() { for to_point in modes {
+                let total = about3(&rf.centre, dd);
+                let d = || format!("3D {}, sample set {} ({} points), displacement {}, guess {}, mode {}", rf.name, set, base.len(), dn, gn, mname(to_point));
+                eval3s(r, rf, &base, &total, guess, to_point, if dev { None } else { Some(1e-6) }, &d);
+            } } }
+        }
+        // near-identity motion with a long lever arm: 1e-8 rad about an axis through the ORIGIN (the part is `omax` away)
+        if rf.omax > 1000.0 * s {
+            let base = spread3(rf, n, false);
+            for (an, ax) in [("z", (0.0, 0.0, 1.0)), ("(1,-1,1)", (1.0, -1.0, 1.0))] { for to_point in modes {
+                let total = rot3(ax, 1.0e-8);
+                let d = || format!("3D {}, sample set A ({} points), displacement: rotation of 1e-8 rad about the axis {} through the ORIGIN, guess identity, mode {}", rf.name, base.len(), an, mname(to_point));
+                let o = eval3s(r, rf, &base, &total, &Iso3::identity(), to_point, Some(1e-6), &d);
+                if explore() { eprintln!("NEARID far {} err {:?}", d(), o.err); }
+            } }
+        }
+    }
+    // (2) sample counts around the usual batch sizes, clean and measured, both modes
+    let rb = ref3("box 4x3x2", &bv, &bf, 1.0, (0.0, 0.0, 0.0));
+    let rw = ref3("wedge (0,0,0),(6,0,0),(0,4,0),(0,0,3)", &wv, &wf, 1.0, (0.0, 0.0, 0.0));
+    let dd = iso3((0.05, -0.03, 0.04), (0.01, -0.02, 0.015));
+    for rf in [&rb, &rw] {
+        for n in [31usize, 33, 65, 130, 1001, 4099] { for dev in [false, true] { for to_point in modes {
+            if n > 1000 && !std::ptr::eq(rf, &rb) && !super::thorough() { continue; }
+            let base = spread3(rf, n, dev);
+            let total = about3(&rf.centre, &dd);
+            let d = || format!("3D {}, {} points spread over the faces ({}), displacement (0.05,-0.03,0.04) + euler (0.01,-0.02,0.015) about the part centre, guess identity, mode {}", rf.name, n, if dev { "measured, deviations on both sides" } else { "on the faces" }, mname(to_point));
+            eval3s(r, rf, &base, &total, &Iso3::identity(), to_point, if dev { None } else { Some(1e-6) }, &d);
+        } } }
+        // (3) duplicates that are not neighbours: the whole set twice, and the set followed by its reverse
+        for dev in [false, true] { for to_point in modes { for rev in [false, true] {
+            let one = spread3(rf, 41, dev);
+            let mut base = one.clone();
+            if rev { base.extend(one.iter().rev().cloned()); } else { base.extend(one.iter().cloned()); }
+            let total = about3(&rf.centre, &dd);
+            let d = || format!("3D {}, 41 points ({}) followed by {} (82 points, every point twice), displacement (0.05,-0.03,0.04) + euler (0.01,-0.02,0.015), guess identity, mode {}", rf.name, if dev { "measured" } else { "on the faces" }, if rev { "the same points in reverse order" } else { "the same points again" }, mname(to_point));
+            eval3s(r, rf, &base, &total, &Iso3::identity(), to_point, if dev { None } else { Some(1e-6) }, &d);
+        } } }
+        // (4) fewer points than parameters (0 .. 5) and garbage guesses: outside the statement's quantifier for recovery, but
+        // "every successful alignment" must still be honest: if Ok, residuals describe the returned transform, RSS <= start
+        for n in [0usize, 1, 2, 3, 5] { for dev in [false, true] { for to_point in modes {
+            let base = spread3(rf, n, dev);
+            let total = about3(&rf.centre, &dd);
+            let d = || format!("3D {}, only {} point(s) ({}), displacement (0.05,-0.03,0.04) + euler (0.01,-0.02,0.015), guess identity, mode {}", rf.name, n, if dev { "measured" } else { "on the faces" }, mname(to_point));
+            let o = eval3s(r, rf, &base, &total, &Iso3::identity(), to_point, None, &d);
+            if explore() { eprintln!("FEW {} ok {}", d(), o.ok); }
+        } } }
+        let garbage: Vec<(&str, Iso3)> = vec![
+            ("translation (50,0,0): the part lies far outside the reference", iso3((50.0, 0.0, 0.0), (0.0, 0.0, 0.0))),
+            ("translation (1e6,-2e6,5e5)", iso3((1.0e6, -2.0e6, 5.0e5), (0.0, 0.0, 0.0))),
+            ("quarter turn about z through the part centre", about3(&rf.centre, &rot3((0.0, 0.0, 1.0), FRAC_PI_2))),
+            ("turn of 2 rad about (1,2,3) through the part centre + (1,1,1)", Iso3::translation(1.0, 1.0, 1.0) * about3(&rf.centre, &rot3((1.0, 2.0, 3.0), 2.0))),
+            ("translation (1e12,0,0)", iso3((1.0e12, 0.0, 0.0), (0.0, 0.0, 0.0))),
+        ];
+        for (gn, guess) in garbage.iter() { for dev in [false, true] { for to_point in modes {
+            let base = spread3(rf, 45, dev);
+            let total = about3(&rf.centre, &dd);
+            let d = || format!("3D {}, 45 points ({}), displacement (0.05,-0.03,0.04) + euler (0.01,-0.02,0.015), starting guess FAR OUTSIDE the basin: {}, mode {}", rf.name, if dev { "measured" } else { "on the faces" }, gn, mname(to_point));
+            let o = eval3s(r, rf, &base, &total, guess, to_point, None, &d);
+            if explore() { eprintln!("GARBAGE {} ok {} err {:?}", d(), o.ok, o.err); }
+        } } }
+    }
+    // (5) near-identity displacements (1e-8) and displacements towards the edge of the basin, samples on the faces
+    for rf in [&rb, &rw] {
+        let base = spread3(rf, 60, false);
+        for (dn, dd, tol) in [
+            ("near-identity: (1e-8,-2e-8,1.5e-8) + 1e-8 rad about (1,1,1) through the part centre", Iso3::translation(1.0e-8, -2.0e-8, 1.5e-8) * rot3((1.0, 1.0, 1.0), 1.0e-8), 1e-6),
+            ("near-identity: translation (0,0,1e-8)", Iso3::translation(0.0, 0.0, 1.0e-8), 1e-6),
+            ("edge of the basin: (0.3,-0.2,0.25) + euler (0.1,0.2,0.3) about the part centre", iso3((0.3, -0.2, 0.25), (0.1, 0.2, 0.3)), 1e-6),
+            ("edge of the basin: (-0.25,0.3,0.2) + 12 degrees about (1,-2,1) through the part centre", Iso3::translation(-0.25, 0.3, 0.2) * rot3((1.0, -2.0, 1.0), 12.0 * std::f64::consts::PI / 180.0), 1e-6),
+        ] { for to_point in modes {
+            let total = about3(&rf.centre, &dd);
+            let d = || format!("3D {}, 60 points on the faces, displacement {}, guess identity, mode {}", rf.name, dn, mname(to_point));
+            let o = eval3s(r, rf, &base, &total, &Iso3::identity(), to_point, Some(tol), &d);
+            if explore() { eprintln!("NEARID/EDGE {} err {:?}", d(), o.err); }
+        } }
+    }
+}
+
+fn run_w5_2d(r: &mut Report) {
+    let tiny = 1.0 / 4096.0;
+    let l: Vec<(f64, f64)> = vec![(0.0, 0.0), (6.0, 0.0), (6.0, 2.0), (3.0, 2.0), (3.0, 4.0), (0.0, 4.0)];
+    let tri: Vec<(f64, f64)> = vec![(0.0, 0.0), (7.0, 1.0), (2.0, 5.0)];
+    let hook: Vec<(f64, f64)> = vec![(0.0, 0.0), (5.0, 0.0), (5.0, 3.0), (2.0, 4.0)];
+    let refs: Vec<Ref2> = vec![
+        ref2("L outline (0,0),(6,0),(6,2),(3,2),(3,4),(0,4)", &l, true, tiny, (0.0, 0.0)),
+        ref2("L outline (0,0),(6,0),(6,2),(3,2),(3,4),(0,4)", &l, true, 1024.0, (0.0, 0.0)),
+        ref2("L outline (0,0),(6,0),(6,2),(3,2),(3,4),(0,4)", &l, true, 1.0, (16384.0, -32768.0)),
+        ref2("L outline (0,0),(6,0),(6,2),(3,2),(3,4),(0,4)", &l, true, 1024.0, (1048576.0, -524288.0)),
+        ref2("scalene triangle (0,0),(7,1),(2,5)", &tri, true, 1.0, (0.0, 0.0)),
+        ref2("scalene triangle (0,0),(7,1),(2,5)", &tri, true, tiny, (0.0, 0.0)),
+        ref2("scalene triangle (0,0),(7,1),(2,5)", &tri, true, 1.0, (-8192.0, 4096.0)),
+        ref2("hook (0,0),(5,0),(5,3),(2,4)", &hook, false, 1.0, (0.0, 0.0)),
+        ref2("hook (0,0),(5,0),(5,3),(2,4)", &hook, false, tiny, (0.0, 0.0)),
+        ref2("hook (0,0),(5,0),(5,3),(2,4)", &hook, false, 1.0, (16384.0, 8192.0)),
+    ];
+    let deg = std::f64::consts::PI / 180.0;
+    for rf in refs.iter() {
+        let s = rf.s;
+        let smalls: Vec<(&str, Iso2)> = vec![
+            ("identity", Iso2::identity()),
+            ("(0.04,-0.03) x scale + 0.02 rad about the part centre", Iso2::new(Vector2::new(0.04 * s, -0.03 * s), 0.02)),
+            ("(-0.05,0.0) x scale - 3 degrees about the part centre", Iso2::new(Vector2::new(-0.05 * s, 0.0), -3.0 * deg)),
+            ("tiny: (3e-5,-2e-5) x scale + 4e-6 rad about the part centre", Iso2::new(Vector2::new(3.0e-5 * s, -2.0e-5 * s), 4.0e-6)),
+        ];
+        let guesses: Vec<(&str, Iso2)> = vec![("identity", Iso2::identity()), ("(0.01,-0.01) x scale + 0.005 rad about the part centre", about2(&rf.centre, &Iso2::new(Vector2::new(0.01 * s, -0.01 * s), 0.005)))];
+        let n = 7 * (rf.v.len() - 1) + 2;
+        for (set, dev) in [("A: on the curve", false), ("B: measured, deviations on both sides", true)] {
+            let mut base = spread2(rf, n, dev);
+            if dev { let rep = base[4]; base.push(rep); }
+            for (dn, dd) in smalls.iter() { for (gn, guess) in guesses.iter() {
+                let total = about2(&rf.centre, dd);
+                let d = || format!("2D {}, sample set {} ({} points), displacement {}, guess {}", rf.name, set, base.len(), dn, gn);
+                eval2s(r, rf, &base, &total, guess, if dev { None } else { Some(1e-6) }, &d);
+            } }
+        }
+        if rf.omax > 1000.0 * s {
+            let base = spread2(rf, n, false);
+            let total = Iso2::rotation(1.0e-8);
+            let d = || format!("2D {}, sample set A ({} points), displacement: rotation of 1e-8 rad about the ORIGIN, guess identity", rf.name, base.len());
+            let o = eval2s(r, rf, &base, &total, &Iso2::identity(), Some(1e-6), &d);
+            if explore() { eprintln!("NEARID far {} err {:?}", d(), o.err); }
+        }
+    }
+    let dd = Iso2::new(Vector2::new(0.04, -0.03), 0.02);
+    for rf in [&refs[4], &refs[7], &ref2("L outline (0,0),(6,0),(6,2),(3,2),(3,4),(0,4)", &l, true, 1.0, (0.0, 0.0))] {
+        let total = about2(&rf.centre, &dd);
+        for n in [31usize, 33, 65, 130, 1001, 4099] { for dev in [false, true] {
+            let base = spread2(rf, n, dev);
+            let d = || format!("2D {}, {} points spread over the edges ({}), displacement (0.04,-0.03) + 0.02 rad about the part centre, guess identity", rf.name, n, if dev { "measured, deviations on both sides" } else { "on the curve" });
+            eval2s(r, rf, &base, &total, &Iso2::identity(), if dev { None } else { Some(1e-6) }, &d);
+        } }
+        for dev in [false, true] { for rev in [false, true] {
+            let one = spread2(rf, 23, dev);
+            let mut base = one.clone();
+            if rev { base.extend(one.iter().rev().cloned()); } else { base.extend(one.iter().cloned()); }
+            let d = || format!("2D {}, 23 points ({}) followed by {} (46 points, every point twice), displacement (0.04,-0.03) + 0.02 rad, guess identity", rf.name, if dev { "measured" } else { "on the curve" }, if rev { "the same points in reverse order" } else { "the same points again" });
+            eval2s(r, rf, &base, &total, &Iso2::identity(), if dev { None } else { Some(1e-6) }, &d);
+        } }
+        for n in [0usize, 1, 2] { for dev in [false, true] {
+            let base = spread2(rf, n, dev);
+            let d = || format!("2D {}, only {} point(s) ({}), displacement (0.04,-0.03) + 0.02 rad, guess identity", rf.name, n, if dev { "measured" } else { "on the curve" });
+            let o = eval2s(r, rf, &base, &total, &Iso2::identity(), None, &d);
+            if explore() { eprintln!("FEW {} ok {}", d(), o.ok); }
+        } }
+        let garbage: Vec<(&str, Iso2)> = vec![
+            ("translation (50,0): the part lies far outside the reference", Iso2::translation(50.0, 0.0)),
+            ("translation (1e6,-2e6)", Iso2::translation(1.0e6, -2.0e6)),
+            ("quarter turn about the part centre", about2(&rf.centre, &Iso2::rotation(FRAC_PI_2))),
+            ("turn of 2.5 rad about the part centre + (1,1)", Iso2::translation(1.0, 1.0) * about2(&rf.centre, &Iso2::rotation(2.5))),
+            ("translation (1e12,0)", Iso2::translation(1.0e12, 0.0)),
+        ];
+        for (gn, guess) in garbage.iter() { for dev in [false, true] {
+            let base = spread2(rf, 30, dev);
+            let d = || format!("2D {}, 30 points ({}), displacement (0.04,-0.03) + 0.02 rad, starting guess FAR OUTSIDE the basin: {}", rf.name, if dev { "measured" } else { "on the curve" }, gn);
+            let o = eval2s(r, rf, &base, &total, guess, None, &d);
+            if explore() { eprintln!("GARBAGE {} ok {} err {:?}", d(), o.ok, o.err); }
+        } }
+        let base = spread2(rf, 40, false);
+        for (dn, dd, tol) in [
+            ("near-identity: (1e-8,-2e-8) + 1e-8 rad about the part centre", Iso2::new(Vector2::new(1.0e-8, -2.0e-8), 1.0e-8), 1e-6),
+            ("near-identity: translation (0,1e-8)", Iso2::translation(0.0, 1.0e-8), 1e-6),
+            ("edge of the basin: (0.3,-0.2) + 10 degrees about the part centre", Iso2::new(Vector2::new(0.3, -0.2), 10.0 * deg), 1e-6),
+            ("edge of the basin: (-0.2,0.3) - 15 degrees about the part centre", Iso2::new(Vector2::new(-0.2, 0.3), -15.0 * deg), 1e-6),
+        ] {
+            let total = about2(&rf.centre, &dd);
+            let d = || format!("2D {}, 40 points on the curve, displacement {}, guess identity", rf.name, dn);
+            let o = eval2s(r, rf, &base, &total, &Iso2::identity(), Some(tol), &d);
+            if explore() { eprintln!("NEARID/EDGE {} err {:?}", d(), o.err); }
+        }
+    }
+}
+
 pub fn run() -> Option<Report> {
     let mut r = Report::new("3D: box 4x3x2, sample sets A (54 points on the faces) and B (lifted 0.02..0.08 off the faces + 6 edge-closest points + 2 bit-identical repeats), 6 displacements (translations <= 0.05, rotations <= 3 degrees, one of size 3e-5) x 4 starting guesses (identity, small, pitch exactly -90 / +90 degrees plus roll) x {ToPlane, ToPoint}; 2D: closed L outline and 4x3 rectangle, sets A (7 points per edge) and B (offset -0.03..0.03 along the normal + 2 corner-closest points + 2 repeats), 6 displacements x 2 guesses; ROUND 2 (same clauses, same shapes): starting guesses with large rotations - 3D: 11 guesses with roll / pitch / yaw near +-pi and +-pi/2 (roll and yaw +-(pi-0.02) with the answer at +-(pi+0.03) so that the euler parameter crosses +-pi during the solve, roll exactly pi, yaw exactly -pi, pitch pi-0.02, quarter turns, mixed) x 8 small corrections (<= 0.05 units, <= 0.05 rad) x both sample sets x both modes; 2D: part turned by +-90, +-120, +-135, +-170, +-175, 180 degrees x 3 guesses within (0.05, 3 degrees) of the correction; far-away parts - 3D: 4 displacements of 54 .. 540 units (10x .. 100x the part size) x 2 guesses within 0.2 units / 3 degrees x both modes, 2D: 4 displacements of 72 .. 720 units x 2 guesses; exactly representable configurations (dyadic samples, pure dyadic translations, identity / dyadic translation guesses; several end with all residuals exactly 0.0 after one solver step): 3D 5 x 3 x both modes, 2D 6 per shape; large sample sets: 3D 4374 points (27x27 grid per face up to 1/64 from the edges) in both modes, 2D 4200 points on the L outline; ROUND 3: MINIMAL sample sets (as many residuals as parameters) - 3D: 6 points in the 3-2-1 locating scheme on three mutually orthogonal faces of the box (3 arrangements, every point >= 0.5 from the edges of its face) and one 7-point control x 3 displacements (<= 0.05 units, <= 2 degrees) x 2 guesses x both modes; 2D: 3 points 2-1 on two perpendicular edges (2 arrangements per outline) and one 4-point control x 3 displacements x 2 guesses: the set is accepted (Ok), recovered within 1e-6 and the residual clauses hold; ROUND 4: OPEN references - L bracket (plates 10x6 and 4x6 sharing a fold; 182 samples incl. points on the free edges; ToPoint) and a corner of three plates (104 samples; both modes) x 4 displacements (slides 0.4 / -0.25 along the fold line = in the plane of both plates, two small general motions), guess identity; VERY far displacements - 3D box: (4e5,-3e5,2e5) and (-1e6,0,5e5) with rotations x 2 guesses within 0.2 units / 6 degrees x both modes, 2D: (3e5,-2e5), (-1e6,4e5), (2.5e5,2.5e5) with rotations x 2 guesses within 0.25 units / 8 degrees on both outlines; recovery tolerance 1e-6, residual tolerance 1e-9 relative");
     run3(&mut r);
@@ -635,5 +1021,7 @@ pub fn run() -> Option<Report> {
     run2_round2(&mut r);
     run_minimal(&mut r);
     run_open_and_far(&mut r);
+    run_w5_3d(&mut r);
+    run_w5_2d(&mut r);
     Some(r)
 }
